@@ -292,8 +292,8 @@ theorem C08_fs_request_roundtrip (r : FileStoreRequestTlv) (wf : WFReq r) (rest 
   rw [show r.action * 16 = r.action * 16 + 0 from rfl, spec_fsValue, FileStoreRequestTlv.unpack_bind]
   simp only [List.cons_append]
   rw [CfdpTlv.unpack_pack_append 0 _ rest (by decide) hl, bind_ok]
-  have := FileStoreRequestTlv.fromTlv_pack r.action 0 r.first r.second [] ha (by omega) h1 h2 u1 u2
-  simp only [List.append_nil, tFsRequest] at this
+  have := FileStoreRequestTlv.fromTlv_pack r.action 0 r.first r.second ha (by omega) h1 h2 u1 u2
+  simp only [tFsRequest] at this
   rw [this]
   rcases hsnp with h | h
   · simp [h]
@@ -350,8 +350,8 @@ theorem C08_fs_response_roundtrip (r : FileStoreResponseTlv) (wf : WFResp r) (re
     simp only [List.length_append, List.length_cons]; omega
   rw [CfdpTlv.unpack_pack_append 1 _ rest (by decide) hl2, bind_ok]
   have := FileStoreResponseTlv.fromTlv_pack r.action (statusToInt r.status) r.first r.second
-    r.msg.value [] ha (statusToInt_lt _) (by rw [← e1]; exact hmem) h1 h2 hm u1 u2
-  simp only [List.append_nil, tFsResponse] at this
+    r.msg.value ha (statusToInt_lt _) (by rw [← e1]; exact hmem) h1 h2 hm u1 u2
+  simp only [tFsResponse] at this
   rw [this, e2]
   rcases hsnp with h | h
   · simp [h]
@@ -361,6 +361,79 @@ theorem C08_fs_response_roundtrip (r : FileStoreResponseTlv) (wf : WFResp r) (re
 theorem C08_fs_response_len (r : FileStoreResponseTlv) (b : Bytes) (h : r.pack = .ok b) :
     b.length = r.packetLen :=
   FileStoreResponseTlv.pack_length r b h
+
+/-- **every accepted filestore request reports exactly the declared TLV length** — for *all*
+    inputs: the input is a type-0 TLV with a value of `packet_len − 2` octets followed by the
+    untouched remainder (a value field holding anything after the names is refused, so the
+    reported length, the declared length and the consumed length coincide) -/
+theorem C08_fs_request_len_exact (d : Bytes) (x : FileStoreRequestTlv)
+    (h : FileStoreRequestTlv.unpack d = .ok x) :
+    ∃ v, WFValue v ∧ x.packetLen = v.length + 2 ∧ x.packetLen ≤ d.length ∧
+      d = Spec.tlv 0 v ++ d.drop x.packetLen := by
+  rw [FileStoreRequestTlv.unpack_bind] at h
+  cases ht : CfdpTlv.unpack d with
+  | error e => rw [ht] at h; cases h
+  | ok t =>
+    rw [ht, bind_ok] at h
+    have hx := FileStoreRequestTlv.fromTlv_len_exact h
+    have hty : t.ttype = 0 := by
+      rw [FileStoreRequestTlv.fromTlv_eq] at h
+      by_cases hty : t.ttype = tFsRequest
+      · exact hty
+      · simp [hty] at h
+    obtain ⟨_, h1, h2, h3⟩ := CfdpTlv.unpack_spec d t ht
+    refine ⟨t.value, h1, by rw [hx]; simp [CfdpTlv.packetLen]; omega, by rw [hx]; exact h2, ?_⟩
+    rw [hx, ← hty]; exact h3
+
+/-- **every accepted filestore response reports exactly the declared TLV length** (all inputs) -/
+theorem C08_fs_response_len_exact (d : Bytes) (x : FileStoreResponseTlv)
+    (h : FileStoreResponseTlv.unpack d = .ok x) :
+    ∃ v, WFValue v ∧ x.packetLen = v.length + 2 ∧ x.packetLen ≤ d.length ∧
+      d = Spec.tlv 1 v ++ d.drop x.packetLen := by
+  rw [FileStoreResponseTlv.unpack_bind] at h
+  cases ht : CfdpTlv.unpack d with
+  | error e => rw [ht] at h; cases h
+  | ok t =>
+    rw [ht, bind_ok] at h
+    have hx := FileStoreResponseTlv.fromTlv_len_exact h
+    have hty : t.ttype = 1 := by
+      rw [FileStoreResponseTlv.fromTlv_eq] at h
+      by_cases hty : t.ttype = tFsResponse
+      · exact hty
+      · simp [hty] at h
+    obtain ⟨_, h1, h2, h3⟩ := CfdpTlv.unpack_spec d t ht
+    refine ⟨t.value, h1, by rw [hx]; simp [CfdpTlv.packetLen]; omega, by rw [hx]; exact h2, ?_⟩
+    rw [hx, ← hty]; exact h3
+
+/-- **octets after the encoded names (and message LV) inside the value field are refused** with
+    `ValueError`, for every otherwise valid request / response and every non-empty slack that still
+    fits the TLV -/
+theorem C08_fs_refuse_slack (r : FileStoreRequestTlv) (wf : WFReq r) (tail rest : Bytes) (ht : tail ≠ [])
+    (hl : (Spec.fsValue (r.action * 16) r.action r.first r.second ++ tail).length ≤ 255) :
+    FileStoreRequestTlv.unpack
+      (Spec.tlv 0 (Spec.fsValue (r.action * 16) r.action r.first r.second ++ tail) ++ rest) =
+      .error .value := by
+  obtain ⟨ha, u1, u2, hsec, hlen⟩ := wf
+  rw [show r.action * 16 = r.action * 16 + 0 from rfl, spec_fsValue] at hl hlen ⊢
+  have hfl := fsValue_length r.action 0 r.first r.second
+  have h1 : r.first.length ≤ 255 := by omega
+  have h2 : r.second.length ≤ 255 := by
+    by_cases h : r.action ∈ snpActions
+    · simp only [h, ↓reduceIte] at hfl; omega
+    · rw [hsec fun x => h ((twoNames_iff _).1 x)]; simp
+  unfold Spec.tlv
+  rw [FileStoreRequestTlv.unpack_bind]
+  simp only [List.cons_append]
+  rw [CfdpTlv.unpack_pack_append 0 _ rest (by decide) hl, bind_ok]
+  exact FileStoreRequestTlv.fromTlv_slack r.action 0 r.first r.second tail ha (by omega) h1 h2 u1 u2 ht
+
+-- the repaired C09 finding: a request TLV declaring 12 octets with three octets after the name
+example : FileStoreRequestTlv.unpack [0, 10, 0, 5, 0x61, 0x2E, 0x74, 0x78, 0x74, 1, 2, 3] = .error .value := by
+  decide
+example : FileStoreRequestTlv.unpack [0, 7, 0, 5, 0x61, 0x2E, 0x74, 0x78, 0x74, 1, 2, 3] =
+    .ok ⟨0, [0x61, 0x2E, 0x74, 0x78, 0x74], []⟩ := by decide
+example : FileStoreResponseTlv.unpack [1, 5, 0x10, 1, 0x61, 0, 9] = .error .value := by decide
+example : FileStoreResponseTlv.unpack [1, 4, 0x10, 1, 0x61, 0, 9] = .ok ⟨1, 16, [0x61], [], ⟨[]⟩⟩ := by decide
 
 /-- every TLV object reports its packed length correctly (whenever it packs at all) -/
 theorem C08_packet_len (a : AnyTlv) (b : Bytes) (h : a.pack = .ok b) : b.length = a.packetLen := by
